@@ -29,6 +29,9 @@ func genTravTree(r *rand.Rand, depth int) V {
 	if r.Intn(6) == 0 {
 		c.Vpf = 1 + r.Intn(2) // a validity policy (2 rejects): Index does not consult it, so neither may Traverse
 	}
+	if r.Intn(6) == 0 {
+		c.Err = 7 // an error recorded by some earlier call (a rejected Push, SetErr): nothing Index or Traverse looks at
+	}
 	st := V{T: 'K', Form: []string{"n", "n", "n", "a", "as", "p"}[r.Intn(6)], Cfg: c}
 	for i, n := 0, r.Intn(5); i < n; i++ {
 		nextLeaf++
